@@ -260,7 +260,8 @@ class C14(Check):
                    'result dtype of rebin compared by kind and item size (byte order not demanded)',
                    'median(x, width) on a big-endian 1-D array is refused by scipy.signal.medfilt with ValueError: counted '
                    '(run1d_bigendian_refused_by_scipy_medfilt) and left undecided, a returned value would be judged']
-    REQUIRED_COUNTERS = ('smooth_interior_points', 'smooth_edge_untouched_points', 'smooth_edge_truncated_points',
+    REQUIRED_COUNTERS = ('online_smooth_points_compared', 'online_median_running_points_compared', 'online_uniq_runs_compared',
+                         'brd_differentials', 'smooth_interior_points', 'smooth_edge_untouched_points', 'smooth_edge_truncated_points',
                          'smooth_width_made_odd', 'median_even_upper', 'median_even_mean', 'median_odd',
                          'run1d_interior_points', 'run2d_interior_points', 'run_edge_points',
                          'uniq_runs_longer_than_1', 'uniq_constant_arrays', 'uniq_constant_with_nonidentity_index',
@@ -329,8 +330,132 @@ class C14(Check):
         self._fragile = None
         self._maxerr = {}
         self._pair_hist = {}
+        # online monitors (vlib.xwork): smooth / median / uniq judged on every call the library itself makes while other
+        # entry points run (bspline.action -> uniq, combine1fiber -> smooth and djs_median -> median, djs_median -> median)
+        from vlib import xwork
+        self.online = xwork.Online()
+        self.xw = xwork.XWork(self)
+        self.online.attach(self.rec, pydl, 'smooth', self.online_smooth)
+        self.online.attach(self.rec, pydl, 'median', self.online_median)
+        self.online.attach(self.rec, pydl, 'uniq', self.online_uniq)
+        import sys
+        for modname in ('pydl.pydlutils.bspline', 'pydl.pydlutils.math', 'pydl.pydlspec2d.spec2d', 'pydl.pydlutils.sdss',
+                        'pydl.pydlspec2d.spec1d'):
+            __import__(modname)
+            mod = sys.modules[modname]
+            for n, orc in (('smooth', self.online_smooth), ('median', self.online_median), ('uniq', self.online_uniq)):
+                f = mod.__dict__.get(n)
+                if callable(f) and getattr(f, '__module__', '') == 'pydl.' + n:     # ``from .. import uniq``: an alias bound at import
+                    self.online.attach(self.rec, mod, n, orc)
+
+    # ------------------------------------------------------------------ online monitors
+    def online_smooth(self, on, a, k, r, st):
+        on.count('online_smooth_calls')
+        names = ('signal', 'owidth', 'edge_truncate')
+        kw = dict(zip(names, a))
+        kw.update(k)
+        x = np.asarray(kw['signal'])
+        w = kw['owidth']
+        if x.ndim != 1 or x.dtype.kind != 'f' or x.dtype.itemsize < 4 or x.size == 0 or not np.all(np.isfinite(x)) \
+                or not isinstance(w, (int, np.integer)) or isinstance(w, (bool, np.bool_)) or w < 0:
+            return on.count('online_smooth_calls_outside_domain')
+        trunc = bool(kw.get('edge_truncate', False))
+        dt = 'f8' if x.dtype.itemsize == 8 else 'f4'
+        r = np.asarray(r)
+        if r.shape != x.shape:
+            return on.fail('smooth-shape', 'smooth() called inside another entry point returned shape %s for %s' % (r.shape, x.shape))
+        val, touched = R.smooth_ref_fast(x, int(w), trunc)
+        scale, _ = R.smooth_ref_fast(np.abs(x), int(w), trunc)
+        g = r.astype(np.longdouble)
+        bad = ~touched & (g != val)
+        if bad.any():
+            on.fail('smooth-edge-untouched', 'smooth(n=%d, width %d) called inside another entry point: point %d must be left untouched'
+                    % (x.size, w, int(np.argmax(bad))))
+        err = np.abs(g - val)
+        bad = touched & ~(err <= TOL[dt] * np.maximum(scale, np.longdouble(1e-300)))
+        on.count('online_smooth_points_compared', int(touched.sum()))
+        if bad.any():
+            j = int(np.argmax(bad))
+            on.fail('smooth-interior' if not trunc else 'smooth-edge-truncate',
+                    'smooth(n=%d, width %d%s) called inside another entry point: point %d got %r, window mean %r'
+                    % (x.size, w, ', edge_truncate' if trunc else '', j, float(g[j]), float(val[j])))
+
+    def online_median(self, on, a, k, r, st):
+        on.count('online_median_calls')
+        names = ('array', 'width', 'axis', 'even')
+        kw = dict(zip(names, a))
+        kw.update(k)
+        x = np.asarray(kw['array'])
+        w = kw.get('width')
+        if kw.get('axis') is not None or x.dtype.kind not in 'fiu' or x.size == 0 or x.dtype.itemsize < 4 \
+                or (x.dtype.kind == 'f' and not np.all(np.isfinite(x))):
+            return on.count('online_median_calls_outside_domain')
+        if w is None:
+            exp, how, (lo, hi) = R.median_ref([v.item() for v in x.ravel()], bool(kw.get('even', False)))
+            g = float(r)
+            on.count('online_median_whole_compared')
+            if how == 'even-mean':
+                if not abs(g - exp) <= 1e-12 * max(abs(lo), abs(hi), 1e-300) * (1e8 if x.dtype.itemsize == 4 else 1):
+                    on.fail('median-even-mean', 'median(even=True) called inside another entry point: got %r, mean of middle values %r' % (g, exp))
+            elif g != exp:
+                on.fail('median-' + how, 'median() of %d values called inside another entry point: got %r expected %r' % (x.size, g, exp))
+            return
+        if x.ndim != 1 or not isinstance(w, (int, np.integer)) or isinstance(w, (bool, np.bool_)) or w < 3 or w % 2 == 0 or w > x.size:
+            return on.count('online_median_calls_outside_domain')
+        exp, inner = R.running_median_1d_fast(x, int(w))
+        r = np.asarray(r)
+        if r.shape != x.shape:
+            return on.fail('median-run1d-shape', 'running median called inside another entry point returned shape %s for %s' % (r.shape, x.shape))
+        inner = np.asarray(inner, dtype=bool)
+        on.count('online_median_running_points_compared', int(inner.sum()))
+        bad = (np.asarray(r, dtype='f8') != np.asarray(exp, dtype='f8'))
+        if (bad & inner).any():
+            j = int(np.argmax(bad & inner))
+            on.fail('median-run1d', 'running median (n=%d, width %d) called inside another entry point: point %d got %r, window median %r'
+                    % (x.size, w, j, float(r[j]), float(np.asarray(exp)[j])))
+        elif (bad & ~inner).any():
+            j = int(np.argmax(bad & ~inner))
+            on.fail('median-run1d-edge', 'running median (n=%d, width %d) called inside another entry point: edge point %d was changed' % (x.size, w, j))
+
+    def online_uniq(self, on, a, k, r, st):
+        on.count('online_uniq_calls')
+        kw = dict(zip(('x', 'index'), a))
+        kw.update(k)
+        x = np.asarray(kw['x'])
+        idx = kw.get('index')
+        if x.ndim != 1 or x.size == 0 or x.size > 200000 or (x.dtype.kind == 'f' and not np.all(np.isfinite(x))) or x.dtype.kind not in 'fiubSU':
+            return on.count('online_uniq_calls_outside_domain')
+        xl = [v.item() for v in x]
+        if idx is not None:
+            idx = [int(v) for v in np.asarray(idx).ravel()]
+            if len(idx) != x.size:
+                return on.count('online_uniq_calls_outside_domain')
+            if len(set(xl)) == 1 and idx[-1] != x.size - 1:     # (with an index ending in n-1 the two readings coincide)
+                return on.count('online_uniq_calls_open_finding_constant_with_index')
+        exp = R.uniq_ref(xl, idx)
+        got = [int(v) for v in np.asarray(r).ravel()]
+        on.count('online_uniq_runs_compared', len(exp))
+        if got != exp:
+            on.fail('uniq-index' if idx is not None else 'uniq-sorted',
+                    'uniq() of %d values called inside another entry point: %d run ends returned, %d expected; first difference at position %s'
+                    % (x.size, len(got), len(exp), next((j for j, (p_, q_) in enumerate(zip(got, exp)) if p_ != q_), min(len(got), len(exp)))))
+
+    def _run_xwork(self, case, out):
+        self.online.begin()
+        try:
+            self.xw.run(case, out)
+        finally:
+            fails, counts = self.online.end()
+        for n, v in counts.items():
+            out.count(n, v)
+        for clause, msg, detail in fails:
+            out.fail(clause, msg, **detail)
+        out.nontrivial = any(counts.get(n, 0) > 0 for n in ('online_smooth_points_compared', 'online_median_running_points_compared',
+                                                            'online_median_whole_compared', 'online_uniq_runs_compared'))
+        out.info = {'driver': case['driver'], 'driver_class': case.get('dcls'), 'online': counts}
 
     def teardown(self):
+        self.xw.teardown()
         self.rec.unwrap_all()
 
     def shard_extra(self):
@@ -372,6 +497,8 @@ class C14(Check):
         q = tier == 'quick'
         nf = len(self.fragile())
         return {
+            'xw_bspline': 60 if q else 2000, 'xw_iterfit': 60 if q else 2000, 'xw_combine1fiber': 60 if q else 2000,
+            'xw_pixels': 200 if q else 6000,
             'smooth_plain': 3500 if q else 60000,
             'smooth_trunc': 3500 if q else 60000,
             'median_whole': 3000 if q else 50000,
@@ -391,6 +518,13 @@ class C14(Check):
 
     # ------------------------------------------------------------------ generators
     def gen(self, cls, rng, i):
+        if cls.startswith('xw_'):
+            drv, classes = {'xw_bspline': ('C08', ('random', 'explicit_bkpt', 'everyn', 'tiny')), 'xw_iterfit': ('C10', None),
+                            'xw_combine1fiber': ('C11', None), 'xw_pixels': ('C17', ('median_1d', 'median_2d', 'aesthetics'))}[cls]
+            case = self.xw.gen(drv, rng, classes=classes)
+            if case is not None:
+                case['fn'] = 'xwork'
+            return case
         if cls == 'stale_sequence':
             return self._gen_sequence(rng, i)
         if cls == 'long_arrays':
@@ -1609,6 +1743,8 @@ class C14(Check):
 
     def summarise(self, case):
         c = dict(case)
+        if c.get('fn') == 'xwork':
+            return {'fn': 'xwork', 'driver': c['driver'], 'driver_class': c.get('dcls')}
         if isinstance(c.get('x'), list) and len(c['x']) > 24:
             c['x'] = c['x'][:24] + ['... %d values in all' % len(case['x'])]
         if isinstance(c.get('index'), list) and len(c['index']) > 24:
